@@ -18,7 +18,7 @@ func init() {
 	register(&Campaign{ID: "C09", NeedsWorkspace: true, Run: runC09, Replay: replayC09})
 }
 
-var hostileStr = []string{"%", "%s", "%d%v", "$1", "$T0", "*/", "//", "/*", `\`, `\n`, `\\`, `a\"b`, `"`, `'`, "`", "a b", " ", "é", "中文", "😀", "<", ">", "{{.}}", "{{", "}}", "a\nb", "\t", "x\x01y", "->", "&&", "%!s(", "\\u0041", "''", "?"}
+var hostileStr = []string{"<\r>", "a\rb", "%", "%s", "%d%v", "$1", "$T0", "*/", "//", "/*", `\`, `\n`, `\\`, `a\"b`, `"`, `'`, "`", "a b", " ", "é", "中文", "😀", "<", ">", "{{.}}", "{{", "}}", "a\nb", "\t", "x\x01y", "->", "&&", "%!s(", "\\u0041", "''", "?"}
 var hostileTok = []string{"tök", "名前", "t_1", "x9", "ident", "λ", "a1_b2", "ñ"}
 var hostileProd = []string{"Ünit", "Σ", "Prod_1", "X9", "Élément", "Z"}
 
@@ -209,7 +209,7 @@ func runC09(c *Ctx) error {
 			g := richGrammar(r)
 			u := add("flags", g, "", randFlags(r))
 			u.hasSyn = len(g.NTs) > 0
-			switch r.Intn(6) {
+			switch r.Intn(9) {
 			case 0:
 				u.opts.OutSub = u.name + "/sub/dir"
 			case 1:
@@ -220,6 +220,14 @@ func runC09(c *Ctx) error {
 				u.opts.WorkSub = "p_" + u.name
 				u.opts.NoOut = true
 				u.flags = append(u.flags, "-p", run.ModPath+"/p_"+u.name)
+			case 4: // absolute, not in clean form
+				u.opts.OutSub = filepath.Join(c.W.Dir, u.name) + []string{"/", "//x", "/./y", "/z/"}[r.Intn(4)]
+			case 5: // relative with redundant elements
+				u.opts.OutSub = []string{u.name + "//d", u.name + "/./d/", "./" + u.name + "/../" + u.name + "/e"}[r.Intn(3)]
+			case 6: // -p with a trailing slash (still the correct package)
+				u.opts.WorkSub = "p_" + u.name
+				u.opts.NoOut = true
+				u.flags = append(u.flags, "-p", run.ModPath+"/p_"+u.name+"/")
 			}
 		default: // (d)
 			add("nullable", deepNullable(r), "", nil)
